@@ -64,3 +64,10 @@ pub fn oracle_floor_helpers_holds(a: i64, b: i128) {
 pub fn oracle_rd_bound_holds(y: i32, m: u32, d: u32) {
     assert!(contract_spec_rd_bound(y, m, d, spec_rd(y, m, d)));
 }
+pub fn oracle_rd_month_lemma_holds(y: i32, m: u32) {
+    assume(1 <= m && m <= 12);
+    assert!(lemma_rd_month(y, m));
+}
+pub fn oracle_rd_inner_lemma_holds(y: i32) {
+    assert!(lemma_rd_inner(y));
+}
